@@ -265,6 +265,23 @@ def run(ctx):
                                   'cfg': 'set' if src == 'cfg' else 'absent', 'where': 'none', 'winner': '-', 'expect': None})
                 cases += [a, b]
                 pairs.append((a, b))
+    # a path of several hundred bytes (short components) is a path like any other, whichever source names it
+    deep = '/'.join('dir%02d' % i for i in range(60))
+    for setting, fname, path, want in (('logfile', deep + '/log.yaml', ['csv', 'log'], b'2021-01-24,soup,2.000\n2021-01-24,bread,1.000\n'),
+                                       ('database', deep + '/food.yaml', ['csv', 'database'], b'soup,calories,40.00\nsoup,fat,2.00\n')):
+        for src in ('flag', 'env', 'cfg'):
+            files = {b'log.yaml': b'2021/01/24:\n  wrong: 9\n', b'food.yaml': b'wrong:\n  x: 1\n', fname.encode(): log if setting == 'logfile' else book}
+            g, e, cfgd = {'noColor': True, 'today': '2021/01/28'}, {}, None
+            if src == 'flag':
+                g[setting] = fname
+            elif src == 'env':
+                e[setting] = fname
+            else:
+                cfgd = {'where': 'flag', 'path': 'my.cfg', 'exists': True, 'entries': {'LogFileName' if setting == 'logfile' else 'DbFileName': fname}}
+                g['config'] = 'my.cfg'
+            cases.append(AppCase(path, (), g=g, env=e, cfg=cfgd, files=files, disk=(cfgd is not None),
+                                 meta={'kind': 'load:%s (a path of %d bytes)' % (setting, len(fname)), 'setting': setting, 'flag': src == 'flag', 'env': src == 'env',
+                                       'cfg': 'set' if src == 'cfg' else 'absent', 'where': 'flag' if src == 'cfg' else 'none', 'winner': src, 'variant': 'long path', 'expect': ('out', want)}))
     # a depth limit of 1 from the configuration file is a limit like any other (not "unset")
     for variant in (0, 1):
         files = {b'food.yaml': chain(variant), b'log.yaml': b''}
